@@ -11,6 +11,7 @@ os.makedirs(SNAP+'/repo'); os.makedirs(SNAP+'/verif/bin')
 subprocess.run(['rsync','-a','--exclude','.git','/repo/',SNAP+'/repo/'],check=True)
 shutil.copy('/verif/bin/lhv',SNAP+'/verif/bin/lhv'); shutil.copy('/verif/known_findings.json',SNAP+'/verif'); shutil.copy('/verif/properties.jsonl',SNAP+'/verif')
 shutil.copytree('/verif/contracts',SNAP+'/verif/contracts'); shutil.copytree('/verif/bounded',SNAP+'/verif/bounded')
+subprocess.run(['rsync','-a','/verif/contracts/',SNAP+'/repo/luahelper-lsp/'],check=True)  # the contract files the checker reads sit next to the code
 def one(sid):
     d='/verif/seeded/'+sid
     prop=json.load(open(d+'/meta.json'))['property']
